@@ -577,6 +577,9 @@ func storeHistory(o *Out, r *rand.Rand, h, nPuts int, thorough bool) {
 		default:
 			id = make([]byte, 32)
 			r.Read(id)
+			if hybrid && r.Intn(8) == 0 {
+				id[0] = 0x05 // an id that begins with the type byte of the ephemeral offers: the hybrid store routes by the KEY
+			}
 		}
 		if bytes.Equal(id, node[:]) {
 			continue
